@@ -324,7 +324,7 @@ func (e *c09Env) script(rng *mrand.Rand, k int) *c09Script {
 	}
 	okCfg := cliCfg{UID: e.bypass, Method: "shadowsocks", Enc: "aes-gcm", Transport: "direct", Browser: "firefox", NumConn: 1, SessionID: 3}
 	{
-		switch k % 20 {
+		switch k % 23 {
 		case 0: // every first byte value with a random tail
 			fb := byte(k / 20 % 256)
 			if fb == 0x16 || fb == 0x47 {
@@ -406,6 +406,49 @@ func (e *c09Env) script(rng *mrand.Rand, k int) *c09Script {
 			c.Transport = "cdn"
 			c.UID = randUID(rng)
 			add("ws-get-unauthorised-uid", [][]byte{genuine(c), rnd(100)}, []time.Duration{0, time.Second}, "all")
+		case 20: // HTTP request immediately followed by more bytes in the same segment (a body, a pipelined request)
+			req := "GET /x" + fmt.Sprint(rng.Uint64()) + " HTTP/1.1\r\nHost: example.com\r\nContent-Length: 300\r\n\r\n"
+			add("http-request-with-trailing-bytes", [][]byte{append([]byte(req), rnd(300+rng.IntN(1500))...)}, nil, "all")
+		case 21, 22: // structurally valid ClientHello whose key_share (or another) extension body is malformed
+			c := okCfg
+			c.Browser = []string{"chrome", "firefox", "safari"}[rng.IntN(3)]
+			save := e.g.pub
+			rand.Read(e.g.pub[:]) // sealed to some other server: not a Cloak client of this server
+			h := genuine(c)
+			e.g.pub = save
+			ch, err := vk.ParseClientHello(h[5:])
+			if err != nil {
+				panic(err)
+			}
+			bodies := [][]byte{{}, {0}, {0, 0}, {0, 3, 0, 0x17, 0}, {0, 4, 0, 0x17, 0, 0}, {0, 2, 0, 0x1d}, {0, 5, 0, 0x1d, 0, 0x20, 1}, {0xff, 0xff}, {0, 1, 0}, {0, 6, 0, 0x17, 0, 1, 9, 0}, {0, 7, 0, 0x17, 0, 0, 0, 0x1d, 0}, {0, 3, 0, 0x1d, 0}}
+			for j := 0; j < 8; j++ {
+				bodies = append(bodies, rnd(rng.IntN(12)))
+			}
+			target := uint16(0x33)
+			if k%23 == 22 {
+				target = []uint16{0, 43, 10, 13, 0x33}[rng.IntN(5)]
+			}
+			body := bodies[(k/23)%len(bodies)] // every body is used, block after block
+			// position of the malformed extension: where the browser has it, moved to the end of the
+			// hello (no following bytes that an over-read could land in), or moved to the front
+			pos := []string{"last", "inplace", "first"}[(k/23/len(bodies)+k/23)%3]
+			var exts, moved []vk.TLSExt
+			for _, e := range ch.Extensions {
+				if e.Type == target {
+					e.Data = body
+					if pos != "inplace" {
+						moved = append(moved, e)
+						continue
+					}
+				}
+				exts = append(exts, e)
+			}
+			if pos == "last" {
+				exts = append(exts, moved...)
+			} else if pos == "first" {
+				exts = append(moved, exts...)
+			}
+			add(fmt.Sprintf("hello-malformed-ext-%#x-%x-%s", target, body, pos), [][]byte{vk.BuildClientHello(ch, exts), rnd(rng.IntN(200))}, []time.Duration{0, time.Second}, "all")
 		default: // valid hello of a database user without credit / past expiry, sent in two halves
 			c := okCfg
 			c.UID = [][]byte{e.noCredit, e.expired}[rng.IntN(2)]
@@ -420,7 +463,7 @@ func TestVerif_C09(t *testing.T) {
 	r := vk.Open()
 	defer r.Close()
 	blocks := r.Pick(32, 1500)
-	per := 20
+	per := 23
 	for blk := 0; blk < blocks; blk++ {
 		id := fmt.Sprintf("relay-block-%d", blk)
 		if !r.Mine(id) {
